@@ -2,6 +2,8 @@ package harness
 
 import (
 	"context"
+	"os"
+	"testing/synctest"
 	"regexp"
 	"errors"
 	"fmt"
@@ -216,7 +218,17 @@ type storeExecOpts struct {
 // under the scheduler, lets everything quiesce, and applies the oracles.
 func execStore(t *testing.T, sc *ConcScenario, choose chooser) *execResult {
 	res := &execResult{}
-	w, err := NewWorld(sc.Cfg)
+	w, err := newWorldWith(sc.Cfg, func(w *World) {
+		if d, ok := sc.Extra["sync"].(time.Duration); ok {
+			w.Sync = d
+		}
+		if d, ok := sc.Extra["gcint"].(time.Duration); ok {
+			w.GCInt = d
+		}
+		if b, ok := sc.Extra["burst"].(int); ok {
+			w.Burst = uint64(b)
+		}
+	})
 	if err != nil {
 		res.viol = viol("open-error", "open: %v", err)
 		return res
@@ -238,6 +250,12 @@ func execStore(t *testing.T, sc *ConcScenario, choose chooser) *execResult {
 		if v, ok := w.Model[string(k.Digest)]; ok {
 			init[k.Name] = string(v)
 		}
+	}
+	if r, ok := sc.Extra["flushRate"].(float64); ok {
+		w.S.VerifSetFlushRate(r)
+	}
+	if sc.Extra["flusher"] == true {
+		w.S.Start()
 	}
 	s := newSched(sc.Ticks, time.Duration(sc.Tick))
 	recs := make([]callRec, 0, 8)
@@ -263,11 +281,48 @@ func execStore(t *testing.T, sc *ConcScenario, choose chooser) *execResult {
 		})
 	}
 	s.run(choose)
-	res.trace = s.trace
+	// only decisions of the main phase are branch points; what follows (fair
+	// continuation, quiescent finals) is deterministic given them
+	res.trace = schedTrace{decisions: append([]decision{}, s.trace.decisions...), steps: append([]string{}, s.trace.steps...)}
 	res.aborted = s.aborted
 	res.conflicts = s.conflicts
+	if s.aborted == "deadlock" && sc.Extra["fair"] == true {
+		// Fair continuation: flushes keep succeeding (the ticker keeps
+		// firing); a writer that is still waiting after three more ticks with
+		// nothing else to do waits for ever.
+		s.aborted = ""
+		s.ticks = 3
+		s.run(func(d *decision, idx int) int { return 0 })
+		res.steps = len(s.trace.decisions)
+		res.aborted = s.aborted
+		if s.aborted == "deadlock" {
+			blocked := s.harnessBlocked()
+			res.viol = viol("stuck-writer", "after the schedule and 3 further fair ticks %v still wait(s) although every flush succeeded: %s", blocked, s.describe())
+			res.outcome = "stuck-writer"
+			// clean up so that the bubble can end: create work and flush
+			s.releaseAll()
+			k := w.Probes[0]
+			for i := 0; i < 8 && len(s.harnessBlocked()) > 0; i++ {
+				synctest.Wait()
+				w.S.Primary().Put(k.Raw, []byte("cleanup"))
+				w.S.Flush()
+				synctest.Wait()
+			}
+			if len(s.harnessBlocked()) > 0 {
+				abortProcessAfter(res)
+				return res
+			}
+			func() {
+				defer func() { recover() }()
+				w.Close()
+			}()
+			classifyConc(sc, recs, res.viol, init, nil)
+			return res
+		}
+	}
 	if s.aborted != "" {
 		if strings.HasPrefix(s.aborted, "replay-divergence") {
+			fmt.Fprintf(os.Stderr, "DIVERGENCE %s: %s\n  steps: %v\n", sc.Name, s.aborted, s.trace.steps)
 			abortProcessAfter(res)
 			return res
 		}
@@ -624,6 +679,52 @@ func c06Scenarios(tier string) []*ConcScenario {
 					scs = append(scs, sc)
 				}
 			}
+		}
+	}
+	return scs
+}
+
+
+// ---- C12: back-pressure ----
+
+func c12Scenarios(tier string) []*ConcScenario {
+	c := cfg("mh", false, 8, bigFile, bigFile)
+	type prog struct {
+		name string
+		init []Op
+		ths  [][]Op
+	}
+	progs := []prog{
+		{"single-writer", nil, [][]Op{{P(0, 1)}}},
+		{"writer+remove", []Op{P(1, 1)}, [][]Op{{P(0, 1)}, {R(1)}}},
+		{"writer+explicit-flush", nil, [][]Op{{P(0, 1)}, {opF}}},
+		{"two-writers", nil, [][]Op{{P(0, 1)}, {P(4, 1)}}},
+	}
+	bound, ticks := 2, 2
+	if tier != "quick" {
+		bound, ticks = 3, 3
+		progs = append(progs,
+			prog{"two-writers+flush", nil, [][]Op{{P(0, 1)}, {P(1, 1)}, {opF}}},
+			prog{"writer-twice", nil, [][]Op{{P(0, 1), P(0, 2)}}},
+		)
+	}
+	var scs []*ConcScenario
+	for pi, p := range progs {
+		for _, selDesc := range []bool{false, true} {
+			if tier == "quick" && (pi == 1 || (selDesc && pi != 0)) {
+				continue
+			}
+			cc := c
+			cc.SelDesc = selDesc
+			ticks := ticks
+			if tier == "quick" && pi != 0 {
+				ticks = 1
+			}
+			sc := &ConcScenario{Prop: "C12", Cfg: cc, Init: p.init, Threads: p.ths, Bound: bound, Ticks: ticks, Tick: int64(time.Second), Exec: execStore,
+				Extra: map[string]any{"sync": time.Second, "burst": 1, "flushRate": 1.0, "flusher": true, "fair": true}}
+			sc.Name = fmt.Sprintf("c12/%s/seldesc=%v", p.name, selDesc)
+			sc.Desc = fmt.Sprintf("real flusher goroutine (sync interval 1s, burst rate 1, flush rate preset so that writers wait), %d ticks, select priority desc=%v; init [%s]; %s", ticks, selDesc, opsString(p.init), progString(p.ths))
+			scs = append(scs, sc)
 		}
 	}
 	return scs
